@@ -167,6 +167,22 @@ func feed(l cl.Local, ch *cl.Child, k *cl.Canary, frames [][]byte, wait time.Dur
 	if serr == nil {
 		serr = ch.Ping()
 	}
+	if k.Stalled() && !ch.Dead() {
+		// the harness could not even deliver the frames: the receive loop took nothing from
+		// its socket for 20 s while the history was written (and again for the probe). The
+		// probe's event decides as always, but there is no backlog left to wait for.
+		if wait > 10*time.Second {
+			wait = 10 * time.Second
+		}
+		ok := k.WaitFor(wait, seen)
+		if ch.Dead() || ch.WaitDead(50*time.Millisecond) {
+			return fmt.Errorf("the listener process died while processing the frames (probe event seen=%v): %s", ok, ch.Death())
+		}
+		if !ok {
+			return fmt.Errorf("the listener is alive but no longer processes frames: its receive loop stopped taking frames from the socket (nothing read for 20 s while the history was being delivered, the rest of it and the probe could not be delivered) and the event of a well-formed UDP probe sent after the frames did not arrive within a further %v", wait)
+		}
+		return nil
+	}
 	ok := k.WaitFor(wait, seen)
 	if !ok && !ch.Dead() {
 		// re-measure before calling it a stop: twice the bound again
@@ -923,11 +939,15 @@ func TestSynFlood(t *testing.T) {
 			t.Fatalf("infra: %v", infra)
 		}
 		r.Note("flood of %d SYNs (%s) + probe took %.1fs", n, f.kind, time.Since(t0).Seconds())
+		t.Logf("flood of %d SYNs (%s) + probe took %.1fs: %v", n, f.kind, time.Since(t0).Seconds(), err)
 		if err != nil {
-			// reduce to the smallest flood size that still fails (bisection between the
-			// largest passing and this one), then confirm
+			// reduce towards the smallest flood size that still fails (bisection between the
+			// largest passing size and this one) for as long as the budget allows - a failing
+			// run costs up to a minute -, then confirm
+			budget := time.Duration(r.Pick(0, 900)) * time.Second
+			tb := time.Now()
 			lo, hi := 0, n
-			for hi-lo > 1 && hi > 1 {
+			for hi-lo > 1 && hi > 1 && time.Since(tb) < budget {
 				mid := (lo + hi) / 2
 				e, infra := runCase(l, frameCase{Tables: "arp", Flood: mid, FloodKind: f.kind}, 240*time.Second)
 				if infra != nil {
@@ -940,7 +960,7 @@ func TestSynFlood(t *testing.T) {
 				}
 			}
 			c.Flood = hi
-			cerr, infra := confirm(r, l, c, 240*time.Second)
+			cerr, infra := runCase(l, c, 240*time.Second)
 			if infra != nil {
 				t.Fatalf("infra: %v", infra)
 			}
@@ -948,6 +968,7 @@ func TestSynFlood(t *testing.T) {
 				r.Violation(t, "TestSynFlood", c, cerr.Error())
 				return
 			}
+			r.Flaky(fmt.Sprintf("C02 flood failed (%v) and passed on re-run with %d", err, hi))
 		}
 	}
 }
